@@ -32,7 +32,18 @@ def menu():
         class C19InnerS(xo.HybridClass):  # every field has a computable default
             _xofields = {"a": xo.Int64, "v": xo.Float64[3]}
 
+        class C19Plain(xo.Struct):  # a plain struct (not a hybrid class) holding a 2-D array
+            a = xo.Int64
+            m = xo.Float64[2, 2]
+
         _menu.update(
+            # a field whose type is a plain struct / a reference to one: its dictionary form is made by the struct itself
+            ps=dict(ftype=C19Plain, defaults=[("none", {}, None)], values=[("diff", dict(a=3, m=[[1.0, 2.0], [3.0, 4.0]])), ("zero", dict(a=0, m=[[0.0, 0.0], [0.0, 0.0]]))]),
+            pr=dict(ftype=xo.Ref[C19Plain], defaults=[("none", {}, None)], values=[("diff", dict(a=4, m=[[5.0, 6.0], [7.0, 8.0]])), ("zero", dict(a=0, m=[[0.0, 0.0], [0.0, 0.0]]))]),
+            # a reference to an object of a hybrid class with a renamed field, BOUND to a dressed object of the same buffer
+            rr=dict(ftype=xo.Ref(C19InnerR), defaults=[("none", {}, None)], values=[("diff", ("bind", C19InnerR, dict(alpha=3, v=[4.0, 5.0, 6.0]))), ("zero", ("bind", C19InnerR, dict(alpha=0, v=[0.0, 0.0, 0.0])))]),
+            # static shape, items of dynamic size
+            ss=dict(ftype=xo.String[3], defaults=[("none", {}, None)], values=[("diff", ["a", "bc", "def"]), ("empty", ["", "", ""])]),
             sc=dict(ftype=xo.Int64, defaults=[("none", {}, None), ("default", dict(default=42), 42), ("factory", dict(default_factory=lambda: 7), 7)], values=[("zero", 0), ("diff", 5), ("near", 43), ("big", 2**40 + 42)]),
             # values *near* the default (same after a lossy cast, prefix / extension of it) are part of the alphabet:
             # an elision test that compares in the wrong type or only a prefix drops them
@@ -54,6 +65,7 @@ def menu():
 
 
 _menu = {}
+NESTED = ("hy", "hs", "hr", "h3", "ps", "pr", "rr")
 
 
 def describe(tier):
@@ -64,7 +76,7 @@ def describe(tier):
         "declared default is absent from the dictionary iff its value equals that default; (a') class families {base, derived class declaring the field again "
         "with another default, derived class inheriting the declaration} serialised in all 6 orders: each class elides exactly its own default and round-trips; then a class is defined from {'pre': Int64, **Base._xofields}: dictionaries made before still rebuild equal objects and the new class round-trips. (b) every reference-free type of the universe in which every "
         "array at any depth is one-dimensional x 3 value alphabets: T(x._to_json()) equals x.",
-        bounds=dict(field_kinds=["sc", "fl", "st", "sa", "da", "hy", "hs", "hr", "h3"], json_types=len(json_types(tier))),
+        bounds=dict(field_kinds=["sc", "fl", "st", "sa", "da", "ss", "hy", "hs", "hr", "h3", "ps", "pr", "rr"], json_types=len(json_types(tier))),
         assumptions=["N-D arrays are outside the property (documented as unsupported by _to_json)"],
         must_fire=["to_dict", "from_dict", "to_json"],
     )
@@ -97,7 +109,7 @@ def shards(tier, seed):
     common.quiet()
     fv = field_variants()
     out = [("hyb", i) for i in range(len(fv))]
-    out += [("family", i) for i in range(len(fv)) if fv[i][3] is not None and fv[i][0] not in ("hy", "hs", "hr", "h3")]
+    out += [("family", i) for i in range(len(fv)) if fv[i][3] is not None and fv[i][0] not in NESTED]
     out += [("json", c) for c in cons.chunk(json_types(tier), 16)]
     return out[seed % len(out):] + out[: seed % len(out)]
 
@@ -132,6 +144,15 @@ def read_hybrid(h, fields):
         elif kind == "hs":
             v = dict(a=int(pv.a), v=np.asarray(pv.v).tolist())
             v2 = dict(a=int(xv.a), v=[float(xv.v[i]) for i in range(3)])
+        elif kind == "rr":
+            v = dict(a=int(pv.alpha if hasattr(pv, "alpha") else pv.a), v=[float(x) for x in (np.asarray(pv.v) if hasattr(pv, "_xobject") else [pv.v[i] for i in range(3)])])
+            v2 = dict(a=int(xv.a), v=[float(xv.v[i]) for i in range(3)])
+        elif kind in ("ps", "pr"):
+            v = dict(a=int(pv.a), m=[[float(pv.m[i, j]) for j in range(2)] for i in range(2)])
+            v2 = dict(a=int(xv.a), m=[[float(xv.m[i, j]) for j in range(2)] for i in range(2)])
+        elif kind == "ss":
+            v = [str(pv[i]) for i in range(3)]
+            v2 = [str(xv[i]) for i in range(3)]
         elif kind in ("sa", "da"):
             v = np.asarray(pv).tolist()
             v2 = [xv[i] for i in range(len(xv))]
@@ -143,6 +164,16 @@ def read_hybrid(h, fields):
     return out
 
 
+def make_hybrid(H, kw):
+    """H(**kw); values ("bind", cls, data) are objects made in the new object's buffer and bound afterwards"""
+    plain = {k: (v() if callable(v) else v) for k, v in kw.items() if not (isinstance(v, tuple) and v and v[0] == "bind")}
+    h = H(**plain)
+    for k, v in kw.items():
+        if isinstance(v, tuple) and v and v[0] == "bind":
+            setattr(h, k, v[1](_buffer=h._buffer, **v[2]))
+    return h
+
+
 def run_hybrid(first, tier, res):
     import xobjects as xo
 
@@ -152,7 +183,7 @@ def run_hybrid(first, tier, res):
 
     def bad(oracle, failure, feat, case, detail):
         res.outcomes["bad:" + failure.split(":")[0]] += 1
-        key = (oracle, failure, feat.get("field_kind"), feat.get("default_kind"), feat.get("renamed"), feat.get("empty_dynamic"))
+        key = (oracle, failure, feat.get("field_kind"), feat.get("default_kind"), feat.get("renamed"), feat.get("empty_dynamic"), feat.get("copy_to_cpu"))
         if key in sig:
             return
         sig.add(key)
@@ -183,9 +214,9 @@ def run_hybrid(first, tier, res):
                 case = dict(part="hyb", first=first, combo=[(c[0], c[1]) for c in combo], rename=rename, values=[c[0] for c in choice])
                 kw = {}
                 for (pyname, xoname, k), (vlab, v) in zip(fields, choice):
-                    kw[pyname] = v() if callable(v) else v
+                    kw[pyname] = v
                 try:
-                    h = H(**kw)
+                    h = make_hybrid(H, kw)
                     before = read_hybrid(h, fields)
                 except Exception as e:
                     res.skipped["construct(C01/C18's business):" + common.exc_failure(e)] += 1
@@ -194,13 +225,14 @@ def run_hybrid(first, tier, res):
                 res.events["to_dict"] += 1
                 try:
                     d = h.to_dict()
-                    json.dumps(d, cls=xo.JEncoder)
+                    if not any(c[0] in ("ps", "pr", "ss", "rr") for c in combo):  # those hold array objects (no JSON form claimed)
+                        json.dumps(d, cls=xo.JEncoder)
                 except Exception as e:
                     bad("C19.to_dict", "to_dict-raises:" + common.exc_failure(e), feat, case, repr(e))
                     continue
                 # default elision
                 for (pyname, xoname, k), (klab, dlab, dkw, dv), (vlab, v) in zip(fields, combo, choice):
-                    if dv is None or k in ("hy", "hs", "hr", "h3"):
+                    if dv is None or k in NESTED:
                         continue  # nested objects are always written out
                     res.oracles["elision"] += 1
                     equal = veq(v, dv)
@@ -221,6 +253,19 @@ def run_hybrid(first, tier, res):
                 if not veq(before, after):
                     bad("C19.roundtrip", "rebuilt-object-differs", feat, case, "%r -> %r" % (before, after))
                     continue
+                # the dictionary made from the object itself (copy_to_cpu=False: no copy into the default context first)
+                res.transitions += 2
+                res.events["to_dict"] += 1
+                res.events["from_dict"] += 1
+                try:
+                    d2 = h.to_dict(copy_to_cpu=False)
+                    after4 = read_hybrid(H.from_dict(d2), fields)
+                except Exception as e:
+                    bad("C19.from_dict", "from_dict-raises:" + common.exc_failure(e), dict(feat, copy_to_cpu=False), case, repr(e))
+                    continue
+                if not veq(before, after4):
+                    bad("C19.roundtrip", "rebuilt-object-differs", dict(feat, copy_to_cpu=False), case, "to_dict(copy_to_cpu=False): %r -> %r" % (before, after4))
+                    continue
                 # the same rebuild into memory that was used before (a freed region full of old bytes) and over a live object
                 ok = True
                 for where in ("dirty-region", "over-live-object"):
@@ -234,7 +279,7 @@ def run_hybrid(first, tier, res):
                             other = {pn: (w if not veq(w, v) else None) for (pn, xn, k), (vlab, v), cand in zip(fields, choice, vals) for w in [next((c[1] for c in cand if not veq(c[1], v)), None)]}
                             if any(w is None for w in other.values()):
                                 continue
-                            live = H(**{k_: (v_() if callable(v_) else v_) for k_, v_ in other.items()})
+                            live = make_hybrid(H, other)
                             kw = dict(_buffer=live._buffer, _offset=live._offset)
                         h3 = H.from_dict(d, **kw)
                         after3 = read_hybrid(h3, fields)
@@ -260,7 +305,7 @@ def run_family(first, tier, res):
     import xobjects as xo
 
     k, lab, kw, dv = field_variants()[first]
-    if dv is None or k in ("hy", "hs", "hr", "h3"):
+    if dv is None or k in NESTED:
         return  # families are about scalar / string / array defaults
     m = menu()[k]
     other = dict(m["values"])["diff"]
